@@ -349,7 +349,7 @@ func getChain() *chain {
 
 func TestC07PassThrough(t *testing.T) {
 	c := getChain()
-	hx.Check(t, hx.Scale(1500, 50000), func(t *rapid.T) {
+	hx.Check(t, hx.Scale(6000, 50000), func(t *rapid.T) {
 		rt := genRoute(t)
 		cfg := rt.line(c.upHost())
 		tbl, err := route.NewTable(bytes.NewBufferString(cfg))
